@@ -192,7 +192,9 @@ func C04(r *ck.Run) {
 		}
 		if ep.ID == "CopyObject" || ep.ID == "UploadPartCopy" {
 			for _, sp := range sps {
-				cases = append(cases, c04Case{ep.ID, "copy-source-key", sp}, c04Case{ep.ID, "copy-source-bucket", sp}, c04Case{ep.ID, "copy-source-version", sp})
+				cases = append(cases, c04Case{ep.ID, "copy-source-key", sp}, c04Case{ep.ID, "copy-source-bucket", sp}, c04Case{ep.ID, "copy-source-version", sp},
+					// the header value is url-encoded on the wire: also send the percent-encoded spelling
+					c04Case{ep.ID, "copy-source-key-encoded", sp}, c04Case{ep.ID, "copy-source-bucket-encoded", sp})
 			}
 		}
 		if ep.ID == "DeleteObjects" {
@@ -249,6 +251,10 @@ func C04(r *ck.Run) {
 					req.Query = setQuery(req.Query, strings.TrimPrefix(c.Param, "query:"), c.Sp.Plain)
 				case c.Param == "copy-source-key":
 					req.Set("x-amz-copy-source", w.Bucket+"/"+c.Sp.Plain)
+				case c.Param == "copy-source-key-encoded":
+					req.Set("x-amz-copy-source", w.Bucket+"/"+c.Sp.Wire)
+				case c.Param == "copy-source-bucket-encoded":
+					req.Set("x-amz-copy-source", sanitizeHeader(c.Sp.Wire))
 				case c.Param == "copy-source-bucket":
 					req.Set("x-amz-copy-source", sanitizeHeader(c.Sp.Plain))
 				case c.Param == "copy-source-version":
